@@ -28,12 +28,20 @@ def policy (l : Line) (r : TEReq) : Go.R TEReq :=
   else if r.exchangeSubject == "blocked-user" || r.subject == "blocked-user" then .error "ErrInvalidRequest"
   else .ok r
 
+/-- Lean twin of the reference storage's actor decision (c15store.go / refstore.exchangeClaims): delegation - the resolved actor;
+    impersonation (scope, no actor) - the exchange subject -/
+def policyActor (r : TEReq) : String :=
+  if r.exchangeActor != "" then r.exchangeActor
+  else if r.scopes.any (fun s => Go.hasPrefix s "custom_scope:impersonate:") then r.exchangeSubject else ""
+
+def claim (c : TEClaims) (k : String) : String := ((c.find? (·.1 == k)).map (·.2)).getD ""
+
 /-- the provider of one line: registry as in C05, every library / storage answer from the line's oracle entries -/
 def providerOf (l : Line) : TEProvider :=
   let cfg := Drv.C05.cfgOf l
   let answer (k : String) (t : String) : Option (String × String) := (pfxOf l t).bind fun p => pair? l (p ++ k)
   { base := { store := { clients := cfg.base.clients }, issuer := str l "issuer", postSupported := true, pkjwtSupported := true },
-    Crypto := { Decrypt := fun t => match pfxOf l t with
+    Crypto := { Encrypt := fun _ => .ok "opaque", Decrypt := fun t => match pfxOf l t with
       | some p => if bool l (p ++ "decok") then .ok (str l (p ++ "dec")) else .error "decrypt"
       | none => .error "decrypt" },
     AccessTokenVerifier := { verify := fun t => match answer "jwt" t with
@@ -54,7 +62,20 @@ def providerOf (l : Line) : TEProvider :=
         VerifyExchangeActorToken := fun t _ => match answer "va" t with
           | some (id, sub) => .ok (id, sub, [])
           | none => .error "not accepted as actor token",
-        ValidateTokenExchangeRequest := policy l } }
+        ValidateTokenExchangeRequest := policy l,
+        -- the three hooks that can supply the private claims of a JWT access token mark their answer; the exchange hook decides the actor
+        is_CanGetPrivateClaimsFromRequest := bool l "cap.pc",
+        GetPrivateClaimsFromTokenExchangeRequest := fun a => .ok [("src", "exchange"), ("act.sub", policyActor a.req)],
+        GetPrivateClaimsFromRequest := fun _ _ => .ok [("src", "request")],
+        GetPrivateClaimsFromScopes := fun _ _ _ => .ok [("src", "scopes")],
+        SigningKey := .ok { signAT := fun c => .ok s!"jwt({c.Subject}|{claim c.Claims "act.sub"}|{claim c.Claims "src"})",
+                            signID := fun c => .ok s!"id({c.Subject}|{claim c.UserInfo.Claims "act.sub"}|{claim c.UserInfo.Claims "src"})" },
+        -- likewise the hooks that can fill the userinfo of an ID token (the reference storage sets the subject for the scope openid)
+        is_CanSetUserinfoFromRequest := bool l "cap.ui",
+        SetUserinfoFromTokenExchangeRequest := fun u a => .ok { u with Subject := if a.req.scopes.contains "openid" then a.req.subject else u.Subject,
+                                                                       Claims := [("src", "exchange"), ("act.sub", policyActor a.req)] },
+        SetUserinfoFromRequest := fun u _ _ => .ok { u with Claims := [("src", "request")] },
+        ClientAccessTokenType := fun c => if c.id == "px" && bool l "px.jwt" then TEConst.AccessTokenTypeJWT else 0 } }
 
 /-- the regenerated chain (GenTE) on the line's request; both routers -/
 def modelLine (l : Line) : String :=
@@ -68,10 +89,14 @@ def modelLine (l : Line) : String :=
   let code (e : String) : String := "err:" ++ (match e with
       | "ErrInvalidRequest" => "invalid_request" | "ErrInvalidClient" => "invalid_client"
       | "ErrUnauthorizedClient" => "unauthorized_client" | "ErrUnsupportedGrantType" => "unsupported_grant_type" | _ => "server_error")
+  -- the response alone does not show on whose behalf the storage policy was asked: those two come from the request that went through
+  let reqOf (c : OPClient) : TEReq := (GenTE.CreateTokenExchangeRequest now rq c p).toOption.getD {}
+  let show2 (r : TEReq) (resp : ExchangeResp) : String :=
+    s!"ok:{short resp.IssuedTokenType}:sub={r.subject}:act={r.exchangeActor}:rt={if resp.RefreshToken != "" then 1 else 0}:tok={resp.AccessToken}"
   let respond (r : TEReq) (c : OPClient) : String :=
     match GenTE.CreateTokenExchangeResponse now r c p with
     | .error e => code e
-    | .ok resp => s!"ok:{short resp.IssuedTokenType}:sub={r.subject}:act={r.exchangeActor}:rt={if resp.RefreshToken != "" then 1 else 0}"
+    | .ok resp => show2 r resp
   if str l "router" == "legacy" then
     -- Server router: withClient (VerifyClient + registered grant), the handler's parameter checks, then LegacyServer.TokenExchange
     let cc : ClientCredentials :=
@@ -81,16 +106,12 @@ def modelLine (l : Line) : String :=
     match Flow.withClient now p.base Const.GrantTypeTokenExchange cc hasAssertion with
     | .error e => code e
     | .ok c =>
-      if rq.SubjectToken == "" then "err:invalid_request"
-      else if rq.SubjectTokenType == "" || !rq.SubjectTokenType.IsSupported then "err:invalid_request"
-      else if rq.RequestedTokenType != "" && !rq.RequestedTokenType.IsSupported then "err:invalid_request"
-      else if rq.ActorTokenType != "" && !rq.ActorTokenType.IsSupported then "err:invalid_request"
-      else if !p.Storage.is_TokenExchangeStorage then "err:unsupported_grant_type"
-      else match GenTE.CreateTokenExchangeRequest now rq c p with
-        | .error e => code e
-        | .ok r => respond r c
+      -- the REGENERATED handler `webServer.tokenExchangeHandler` -> `LegacyServer.TokenExchange`
+      match GenTE.tokenExchangeHandler now { server := { provider := p } } { form := .ok rq } c with
+      | .error e => code e
+      | .ok resp => show2 (reqOf c) resp
   else
-  if !p.Storage.is_TokenExchangeStorage then "err:unsupported_grant_type" else
+  if !GenTE.GrantTypeTokenExchangeSupported now p then "err:unsupported_grant_type" else   -- the `Exchange` dispatcher's own test
   -- Provider router: the credentials are those of the Basic header only
   let (id, sec) := if str l "auth" == "basic" then (str l "cid", str l "secret") else ("", "")
   match GenTE.ValidateTokenExchangeRequest now rq id sec p with
